@@ -3,7 +3,7 @@
    [load c r] = ProcessTemplates of the root template r under the environment maps c, as coded
    ([proc coded]); [proc ideal] = the reference reading of the property text used by the monitor.
    Schedules: [run coded s w] lets the goroutines of the work tree w act in the order s. *)
-From Verif Require Import Common Load Load_proofs.
+From Verif Require Import Common Gen_LoadStages Load Load_proofs.
 Open Scope N_scope.
 
 (* --- same tree whether template processing runs sequentially or concurrently --- *)
@@ -140,6 +140,21 @@ Print Assumptions C15_error_fails_refuted.
 Theorem C15_error_fails_partial : forall c r, load c r = Err <-> terr false c [] r.
 Proof. exact load_fails_iff. Qed.
 Print Assumptions C15_error_fails_partial.
+
+(* whatever the schedule: a finished load with a live template error outside `enabled` is a
+   failure (the repaired lost-error race of the iterator / aggregator goroutines) *)
+Theorem C15_error_fails_every_schedule : forall c r s o,
+  terr false c [] r -> run coded s (WTodo c [] r) = WDone o -> o = Err.
+Proof. exact error_fails_every_schedule. Qed.
+Print Assumptions C15_error_fails_every_schedule.
+
+(* --- tie to the source: the stage in which each field is processed (table regenerated from the
+   template.Sequence literals of /repo on every run) is the one the model implements --- *)
+Theorem C15_source_stages :
+  load_stage_table = model_stage_table /\ load_stage_count = model_stage_count /\
+  load_disabled_check_stage = model_disabled_check_stage.
+Proof. exact stages_as_modelled. Qed.
+Print Assumptions C15_source_stages.
 
 (* --- the reference the monitor compares with meets the strict readings --- *)
 
